@@ -45,7 +45,9 @@
 //	    types Object, List, *atNil, *atString, *atInt, *atBool, *atFloat; on a `getVal()` result the
 //	    types Object, List, string, bool, int, float64.  `v, ok := x.(T)` gives `ok := x.kind == K`,
 //	    `v := x`.  `item.getVal()` is `h.getVal item`.  `r.getVal().(*list)` for an interface value
-//	    `r : Ref` succeeds iff `h.ego r.addr == 0 && h.isList r.addr` and denotes the cell `r.addr`.
+//	    `r : Ref` succeeds iff `h.ego r.addr == 0 && h.isList r.addr` and denotes the cell `r.addr`;
+//	    `r.base()` denotes the cell `r.addr` at every embedding level (a run-time panic when `r` is
+//	    not a list, i.e. a nil interface).
 //	    The constants TypeX are the constructors of `Kind`.  `x == y` on interface values is `L.goEq`.
 //	R8  allocation.  `x := &list{val: e}` followed by `x.Init(x)` is a new cell `.list e 0` at address
 //	    `h.length` (appended when the next heap operation or the return needs it); the value `x`
@@ -891,6 +893,9 @@ func (x *lctx) effectful(env *lenv, call *ast.CallExpr) bool {
 	if isIdent(call.Fun, "parseVal") {
 		return true
 	}
+	if s, ok := call.Fun.(*ast.SelectorExpr); ok && s.Sel.Name == "base" && len(call.Args) == 0 {
+		return true // may panic (nil interface)
+	}
 	if f, _, ok := x.resolve(env, call); ok {
 		return f.heap || f.out
 	}
@@ -1381,6 +1386,17 @@ func (x *lctx) hoistNodes(env *lenv, nodes []ast.Expr, hint string, k lkont) lno
 		}
 		failAt(n, "unrecognised type assertion: %s", src(n))
 	case *ast.CallExpr:
+		// r.base(): the embedded implementation of an interface value, whatever its embedding level (R7)
+		if s, ok := n.Fun.(*ast.SelectorExpr); ok && s.Sel.Name == "base" && len(n.Args) == 0 {
+			r := x.expr(env, s.X)
+			if r.typ == "Ref" {
+				e := env.clone()
+				addr := paren(r.lean) + ".addr"
+				e.subst[n] = lbind{typ: "ListPtr", lean: addr}
+				return lIf{cond: "!" + env.heap + ".isList " + addr,
+					a: x.panicLeaf(env.clone(), n, ".runtime"), b: next(e)}
+			}
+		}
 		if isIdent(n.Fun, "make") {
 			size := n.Args[len(n.Args)-1]
 			v := x.expr(env, size)
